@@ -24,6 +24,13 @@ pub struct Hist {
     pub world: World,
     pub sw: Swarm,
     setup: Vec<Op>,
+    /// C13: observable snapshot taken just before BEGIN
+    begin_snap: Option<Snap>,
+    /// world (declared schema) at BEGIN, restored on ROLLBACK
+    begin_world: Option<Box<World>>,
+    /// C14: model of the savepoint stack: (name, table contents when it was created)
+    sp_stack: Vec<(String, BTreeMap<String, TableSnap>)>,
+    dead_savepoints: Vec<String>,
 }
 
 /// Value-normalised canonical form: integer variants compare by value, strings by content.
@@ -261,15 +268,21 @@ impl Scenario for Hist {
     const NAME: &'static str = "hist";
 
     fn new(_prop: &str, sw: &Swarm) -> Self {
-        Hist { sut: Sut::new(), world: World::default(), sw: sw.clone(), setup: Vec::new() }
+        Hist { sut: Sut::new(), world: World::default(), sw: sw.clone(), setup: Vec::new(), begin_snap: None, begin_world: None, sp_stack: Vec::new(), dead_savepoints: Vec::new() }
     }
 
     fn next_op(&mut self, rng: &mut Rng, _cx: &mut Ctx) -> Option<Op> {
         // setup phase: create the tables first
         if self.world.tables.is_empty() && self.setup.is_empty() && self.world.next_name == 0 {
-            for i in 0..self.sw.n_tables {
-                let d = gen_table(rng, &self.sw, &format!("t{}", i));
-                self.setup.push(Op::create_table(d));
+            if self.sw.with_fk {
+                for d in gen_fk_tables(rng, &self.sw) {
+                    self.setup.push(Op::create_table(d));
+                }
+            } else {
+                for i in 0..self.sw.n_tables {
+                    let d = gen_table(rng, &self.sw, &format!("t{}", i));
+                    self.setup.push(Op::create_table(d));
+                }
             }
             self.setup.reverse();
             self.world.next_name = 1;
@@ -286,18 +299,25 @@ impl Scenario for Hist {
                 return Some(Op::create_table(gen_table(rng, &sw, &name)));
             }
         };
+        let no_ddl_now = self.world.in_tx && (sw.with_savepoints || sw.guard("no_ddl_in_tx"));
         let weights = [
             sw.w_insert,
             sw.w_update,
             sw.w_delete,
-            sw.w_truncate,
-            if sw.with_indexes { sw.w_index } else { 0 },
+            if no_ddl_now { 0 } else { sw.w_truncate },
+            if sw.with_indexes && !no_ddl_now { sw.w_index } else { 0 },
             if sw.with_tx { sw.w_tx } else { 0 },
-            if sw.ddl_in_history { sw.w_ddl } else { 0 },
-            if sw.with_analyze { 1 } else { 0 },
+            if sw.ddl_in_history && !no_ddl_now { sw.w_ddl } else { 0 },
+            if sw.with_analyze && !no_ddl_now { 1 } else { 0 },
         ];
         Some(match rng.weighted(&weights) {
-            0 => gen_insert(rng, &sw, &self.sut, &def, None),
+            0 => {
+                let mut op = gen_insert(rng, &sw, &self.sut, &def, None);
+                if !def.fks.is_empty() {
+                    op = fk_adjust_insert(rng, &self.sut, &self.world, &def, op);
+                }
+                op
+            }
             1 => gen_update(rng, &sw, &self.sut, &def, o),
             2 => gen_delete(rng, &sw, &self.sut, &def, o),
             3 => Op::new(Kind::Truncate, format!("TRUNCATE TABLE {}", def.name)).table(&def.name),
@@ -314,6 +334,40 @@ impl Scenario for Hist {
             5 => {
                 if !self.world.in_tx {
                     Op::new(Kind::Begin, "BEGIN".into())
+                } else if sw.with_savepoints && rng.chance(7, 8) {
+                    let live: Vec<String> = self.sp_stack.iter().map(|(n, _)| n.clone()).collect();
+                    match rng.below(10) {
+                        0..=3 => {
+                            let n = if !self.dead_savepoints.is_empty() && rng.chance(1, 4) {
+                                let i = rng.usize(self.dead_savepoints.len());
+                                self.dead_savepoints.remove(i)
+                            } else {
+                                self.world.fresh_name("sp")
+                            };
+                            Op::new(Kind::Savepoint, format!("SAVEPOINT {}", n)).named(&n)
+                        }
+                        4..=7 if !live.is_empty() => {
+                            let n = rng.pick(&live).clone();
+                            Op::new(Kind::RollbackTo, format!("ROLLBACK TO SAVEPOINT {}", n)).named(&n)
+                        }
+                        8 if !live.is_empty() => {
+                            let n = rng.pick(&live).clone();
+                            Op::new(Kind::Release, format!("RELEASE SAVEPOINT {}", n)).named(&n)
+                        }
+                        _ if !self.dead_savepoints.is_empty() => {
+                            // fault: a destroyed savepoint name
+                            let n = rng.pick(&self.dead_savepoints).clone();
+                            if rng.chance(1, 2) {
+                                Op::new(Kind::RollbackTo, format!("ROLLBACK TO SAVEPOINT {}", n)).named(&n).fault("destroyed-savepoint")
+                            } else {
+                                Op::new(Kind::Release, format!("RELEASE SAVEPOINT {}", n)).named(&n).fault("destroyed-savepoint")
+                            }
+                        }
+                        _ => {
+                            let n = self.world.fresh_name("sp");
+                            Op::new(Kind::Savepoint, format!("SAVEPOINT {}", n)).named(&n)
+                        }
+                    }
                 } else if rng.chance(1, 2) {
                     Op::new(Kind::Commit, "COMMIT".into())
                 } else {
@@ -341,32 +395,46 @@ impl Scenario for Hist {
         let pre_snap = if want_c11 && is_dml { Some(snapshot(&self.sut, true)) } else { None };
         let table = op.table.clone().unwrap_or_default();
         let pre_rows = if (want_c09 || want_c11) && is_dml { table_rows(&self.sut, &table) } else { None };
+        let want_c12 = cx.is("C12");
         let mut sel: Option<Out> = None;
         let mut img: Option<Out> = None;
-        if want_c09 && matches!(op.kind, Kind::Update | Kind::Delete) {
-            let q = match &op.pred {
-                Some(p) => format!("SELECT * FROM {} WHERE {}", table, p),
-                None => format!("SELECT * FROM {}", table),
-            };
-            sel = Some(self.sut.query(&q));
+        if (want_c09 || want_c12) && matches!(op.kind, Kind::Update | Kind::Delete) {
+            let ncols = self.world.tables.get(&table).map(|d| d.cols.len()).unwrap_or(0);
+            let mut list: Vec<String> = self.world.tables.get(&table).map(|d| d.cols.iter().map(|c| c.name.clone()).collect()).unwrap_or_default();
             if op.kind == Kind::Update {
                 if let Some(def) = self.world.tables.get(&table) {
-                    let list: Vec<String> = def
-                        .cols
-                        .iter()
-                        .map(|c| match op.sets.iter().find(|(n, _)| n.eq_ignore_ascii_case(&c.name)) {
+                    for c in &def.cols {
+                        list.push(match op.sets.iter().find(|(n, _)| n.eq_ignore_ascii_case(&c.name)) {
                             Some((_, e)) => e.clone(),
                             None => c.name.clone(),
-                        })
-                        .collect();
-                    let q = match &op.pred {
-                        Some(p) => format!("SELECT {} FROM {} WHERE {}", list.join(", "), table, p),
-                        None => format!("SELECT {} FROM {}", list.join(", "), table),
-                    };
-                    img = Some(self.sut.query(&q));
+                        });
+                    }
+                }
+            }
+            if ncols > 0 {
+                let q = match &op.pred {
+                    Some(p) => format!("SELECT {} FROM {} WHERE {}", list.join(", "), table, p),
+                    None => format!("SELECT {} FROM {}", list.join(", "), table),
+                };
+                match self.sut.query(&q) {
+                    Out::Rows(rows) => {
+                        sel = Some(Out::Rows(rows.iter().map(|r| r[..ncols.min(r.len())].to_vec()).collect()));
+                        if op.kind == Kind::Update {
+                            img = Some(Out::Rows(rows.iter().map(|r| r[ncols.min(r.len())..].to_vec()).collect()));
+                        }
+                    }
+                    other => sel = Some(other),
                 }
             }
         }
+        let pre_all: Option<crate::fkmodel::Tables> = if want_c12 {
+            Some(self.world.tables.keys().filter_map(|n| table_rows(&self.sut, n).map(|r| (n.clone(), r))).collect())
+        } else {
+            None
+        };
+        let mut c13_pre = if cx.is("C13") && matches!(op.kind, Kind::Begin | Kind::Commit) { Some(snapshot(&self.sut, true)) } else if op.kind == Kind::Begin { Some(Snap::default()) } else { None };
+        let c14_pre = if cx.is("C14") && op.kind == Kind::Release { Some(snapshot(&self.sut, false).tables) } else { None };
+        let world_before = if op.kind == Kind::Begin { self.world.clone() } else { World::default() };
 
         // ---- execute
         let out = self.sut.exec(&op.sql);
@@ -466,6 +534,169 @@ impl Scenario for Hist {
                     }
                 }
                 _ => {}
+            }
+        }
+
+        // ---- transaction bookkeeping + C13 / C14
+        match op.kind {
+            Kind::Begin if out.is_ok() => {
+                self.begin_snap = c13_pre.take();
+                self.begin_world = Some(Box::new(world_before.clone()));
+                self.sp_stack.clear();
+                self.dead_savepoints.clear();
+            }
+            Kind::Rollback if out.is_ok() => {
+                if let Some(w) = self.begin_world.take() {
+                    let next = self.world.next_name;
+                    self.world = *w;
+                    self.world.next_name = next;
+                    self.world.in_tx = false;
+                    self.world.savepoints.clear();
+                }
+                self.sp_stack.clear();
+                if cx.is("C13") {
+                    if let Some(b) = self.begin_snap.take() {
+                        let post = snapshot(&self.sut, true);
+                        cx.eval("c13.rollback_restores");
+                        cx.reach("rollback_checked");
+                        if b != post {
+                            return cx.violation("c13.rollback_restores", format!("state after ROLLBACK differs from state before BEGIN: {}", b.diff(&post)));
+                        }
+                    }
+                }
+            }
+            Kind::Commit if out.is_ok() => {
+                self.begin_world = None;
+                self.begin_snap = None;
+                self.sp_stack.clear();
+                if cx.is("C13") {
+                    if let Some(pre) = c13_pre.take() {
+                        let post = snapshot(&self.sut, true);
+                        cx.eval("c13.commit_keeps");
+                        if pre != post {
+                            return cx.violation("c13.commit_keeps", format!("state after COMMIT differs from state after the last statement: {}", pre.diff(&post)));
+                        }
+                    }
+                }
+            }
+            Kind::Savepoint if out.is_ok() => {
+                let n = op.name.clone().unwrap_or_default();
+                self.sp_stack.push((n, snapshot(&self.sut, false).tables));
+            }
+            Kind::RollbackTo | Kind::Release => {
+                let n = op.name.clone().unwrap_or_default();
+                let pos = self.sp_stack.iter().rposition(|(x, _)| *x == n);
+                if cx.is("C14") {
+                    match (pos, out.is_ok()) {
+                        (None, true) => {
+                            cx.eval("c14.destroyed_savepoint");
+                            return cx.violation("c14.destroyed_savepoint", format!("{} succeeded although that savepoint was never created or has been destroyed", op.sql));
+                        }
+                        (Some(_), false) => {
+                            cx.eval("c14.savepoint_alive");
+                            return cx.violation("c14.savepoint_alive", format!("{} failed ({}) although the savepoint is alive", op.sql, out.brief()));
+                        }
+                        (None, false) => {
+                            cx.eval("c14.destroyed_savepoint");
+                            cx.reach("destroyed_savepoint_rejected");
+                        }
+                        _ => {}
+                    }
+                }
+                if let (Some(p), true) = (pos, out.is_ok()) {
+                    let now = snapshot(&self.sut, false).tables;
+                    if op.kind == Kind::RollbackTo {
+                        for (d, _) in self.sp_stack.drain(p + 1..) {
+                            self.dead_savepoints.push(d);
+                        }
+                        if cx.is("C14") {
+                            cx.eval("c14.rollback_to");
+                            cx.reach("rollback_to_checked");
+                            let want = &self.sp_stack[p].1;
+                            if *want != now {
+                                let a = Snap { tables: want.clone(), ..Default::default() };
+                                let b = Snap { tables: now, ..Default::default() };
+                                return cx.violation("c14.rollback_to", format!("after {} the tables differ from their contents at the savepoint: {}", op.sql, a.diff(&b)));
+                            }
+                        }
+                    } else {
+                        for (d, _) in self.sp_stack.drain(p..) {
+                            self.dead_savepoints.push(d);
+                        }
+                        if cx.is("C14") {
+                            if let Some(pre) = &c14_pre {
+                                cx.eval("c14.release_no_change");
+                                if *pre != now {
+                                    let a = Snap { tables: pre.clone(), ..Default::default() };
+                                    let b = Snap { tables: now, ..Default::default() };
+                                    return cx.violation("c14.release_no_change", format!("{} changed data: {}", op.sql, a.diff(&b)));
+                                }
+                            }
+                        }
+                    }
+                }
+            }
+            _ => {}
+        }
+
+        // ---- C12
+        if want_c12 {
+            use crate::fkmodel::{self, Verdict};
+            let post_all: fkmodel::Tables = self.world.tables.keys().filter_map(|n| table_rows(&self.sut, n).map(|r| (n.clone(), r))).collect();
+            cx.eval("c12.no_orphan");
+            if let Some(o) = fkmodel::orphan(&self.world.tables, &post_all) {
+                return cx.violation("c12.no_orphan", format!("after {} ({}): orphan child row: {}", op.sql, out.brief(), o));
+            }
+            if let (Some(pre), Some(Out::Rows(olds))) = (&pre_all, &sel) {
+                // attribution: if the statement did not even act on the rows its own predicate selects
+                // (C09's business), the FK model has nothing to say about this step
+                let self_ref = self.world.tables.get(&table).map(|d| d.fks.iter().any(|f| f.parent == table)).unwrap_or(false);
+                if out.is_ok() && !self_ref && matches!(op.kind, Kind::Delete | Kind::Update) {
+                    if let (Some(p), Some(q)) = (pre.get(&table), post_all.get(&table)) {
+                        let rest = bag_minus(&vbag(p), &vbag(olds));
+                        let want = match (&rest, op.kind == Kind::Update, &img) {
+                            (Some(r), true, Some(Out::Rows(im))) => Some(bag_plus(r, &vbag(im))),
+                            (Some(r), false, _) => Some(r.clone()),
+                            _ => None,
+                        };
+                        if want.as_ref() != Some(&vbag(q)) {
+                            return Step::EndForeign("c09_target_rows".into());
+                        }
+                    }
+                }
+                let verdict = match op.kind {
+                    Kind::Delete => Some(fkmodel::delete(&self.world.tables, pre, &table, olds)),
+                    Kind::Update => match &img {
+                        Some(Out::Rows(news)) if news.len() == olds.len() => {
+                            let pairs: Vec<_> = olds.iter().cloned().zip(news.iter().cloned()).collect();
+                            Some(fkmodel::update(&self.world.tables, pre, &table, &pairs))
+                        }
+                        _ => None,
+                    },
+                    _ => None,
+                };
+                match verdict {
+                    Some(Verdict::Post(want)) if out.is_ok() => {
+                        cx.eval("c12.action_effect");
+                        let (w, g) = (fkmodel::bags(&want), fkmodel::bags(&post_all));
+                        if w != g {
+                            let which = w.iter().find(|(k, v)| g.get(*k) != Some(*v)).map(|(k, _)| k.clone()).unwrap_or_default();
+                            return cx.violation("c12.action_effect", format!("after {}: table {} holds {:?}, the declared ON DELETE/UPDATE actions give {:?}", op.sql, which, g.get(&which), w.get(&which)));
+                        }
+                        if want.iter().any(|(k, v)| k != &table && pre.get(k).map(|p| crate::scen_hist::vbag(p)) != Some(crate::scen_hist::vbag(v))) {
+                            cx.reach("referential_action_changed_child");
+                        }
+                    }
+                    Some(Verdict::MustReject(why)) => {
+                        cx.eval("c12.must_reject");
+                        if out.is_ok() {
+                            return cx.violation("c12.must_reject", format!("{} was accepted although {}", op.sql, why));
+                        }
+                        cx.reach("orphaning_statement_rejected");
+                    }
+                    Some(Verdict::Unknown(w)) => cx.rep.count(&format!("c12.unmodelled.{}", w)),
+                    _ => {}
+                }
             }
         }
 
